@@ -110,7 +110,7 @@ Section HeadStep.
     intros u j Hj.
     assert (W : wfinstr c j).
     { destruct (hs_new j u Hj) as [H|[_ H]]; [eapply i_wf; eauto | apply Hnew_wf; auto]. }
-    destruct j as [k| | | | | | | | | | | | |]; simpl in *; auto. destruct k; simpl in *; rewrite ?hs_creg; auto.
+    destruct j as [k| | | | | | | | | | | | | |]; simpl in *; auto. destruct k; simpl in *; rewrite ?hs_creg; auto.
   Qed.
 
   Lemma hs_drain : drain_ok (c_cont c' main).
@@ -786,12 +786,12 @@ Proof.
   assert (Hin : forall j, In j (c_cont c main) -> ~ consumable j -> In j (c_cont c' main)).
   { intros j Hj Hn. eapply hs_in_main; eauto. }
   assert (Hnewwf : forall j, In j new -> wfinstr c j).
-  { intros j Hj. apply Hnew in Hj. destruct j as [k| | | | | | | | | | | | |]; simpl in *; auto.
+  { intros j Hj. apply Hnew in Hj. destruct j as [k| | | | | | | | | | | | | |]; simpl in *; auto.
     destruct k; simpl in *; tauto. }
   assert (Hnewnd : forall j, In j new -> is_drain j = false).
   { intros j Hj. apply Hnew in Hj. destruct j; simpl in *; tauto. }
   assert (Hnewmo : forall j, In j new -> t <> main -> main_only j = false).
-  { intros j Hj Hn. apply Hnew in Hj. destruct j as [k| | | | | | | | | | | | |]; simpl in *; auto; tauto. }
+  { intros j Hj Hn. apply Hnew in Hj. destruct j as [k| | | | | | | | | | | | | |]; simpl in *; auto; tauto. }
   constructor.
   - intros h Hh. change (c_new c' h) with (gn h) in Hh. pose proof (Hgn h Hh) as Hn.
     destruct (i_new c I h Hn) as [[j [A B]]|[x [A B]]].
@@ -859,7 +859,7 @@ Proof.
     apply in_or_app. auto. }
   assert (Hhp : forall h d, chpend c h d -> chpend c' h d).
   { intros h d [j [A B]]. exists j. split; auto. apply Hin; auto. intro; subst j.
-    destruct i as [k| |[|]|? [|]| | | |? []|? []| | | | |]; simpl in Hi, B; try contradiction. }
+    destruct i as [k| |[|]|? [|]| | | |? []|? []| | | | | |]; simpl in Hi, B; try contradiction. }
   assert (Hcreg : forall bm, creg c' bm = creg c bm) by reflexivity.
   constructor.
   - intros h Hh. change (c_new c' h) with (c_new c h) in Hh.
@@ -891,7 +891,7 @@ Proof.
         + apply Hnew in Hj. destruct j; simpl in *; auto. contradiction.
         + apply (i_wf c I main). rewrite Hc. right. auto.
       - rewrite updT_other in Hj by auto. apply (i_wf c I t j Hj). }
-    destruct j as [k| | | | | | | | | | | | |]; simpl in *; auto.
+    destruct j as [k| | | | | | | | | | | | | |]; simpl in *; auto.
   - rewrite Hc', updT_same. apply drain_ok_app_nd.
     + intros j Hj. apply Hnew in Hj. destruct j; simpl in *; auto; contradiction.
     + pose proof (i_drain c I) as D. rewrite Hc in D. simpl in D. tauto.
@@ -929,7 +929,7 @@ Proof.
   assert (Sany : forall acc k, SInv (set_norm c (c_sl c) acc k)).
   { intros. eapply SInv_same; [| | |exact S]; reflexivity. }
   destruct (c_cont c main) as [|i r] eqn:Hc; [discriminate|].
-  destruct i as [k| |[|bm bms]|bm [|a ls]| |[|b bs]|[|b bs]| | | | | | |]; try discriminate.
+  destruct i as [k| |[|bm bms]|bm [|a ls]| |[|b bs]|[|b bs]| | | | | | | |]; try discriminate.
   - (* IBms [] *)
     inversion H; subst c'; clear H.
     apply (pres_main_rewrite c (c_sl c) (c_acc c) (IBms []) r []); auto; try exact Logic.I.
@@ -1060,7 +1060,7 @@ Proof.
   - intros bm a Hl. rewrite El in Hl. destruct (i_leafwf c I bm a Hl). split; auto.
   - intros bm Hs. rewrite Es in Hs. apply Hreg. apply (i_summwf c I); auto.
   - intros t i Hi. rewrite Ec in Hi. pose proof (i_wf c I t i Hi) as W.
-    destruct i as [k| | | | | | | | | | | | |]; simpl in *; auto. destruct k; simpl in *; intuition.
+    destruct i as [k| | | | | | | | | | | | | |]; simpl in *; auto. destruct k; simpl in *; intuition.
   - rewrite Ec. apply (i_drain c I).
   - rewrite Ea, Ec. apply (i_acc c I).
   - intros t Ht i Hi. rewrite Ec in Hi. eapply (i_mainonly c I); eauto.
